@@ -10,7 +10,7 @@ RULE = (
     "cases: seeded random meshes (mixed face sizes, shuffled face order so size partitions interleave, partial, "
     "padding wider than needed) x all 10 reductions x both destinations x dtype in {float64,float32,int64,bool} x "
     "rank 1..3 (element dimension last), data carrying sentinel values on node 0 and on the last node so that a "
-    "padding index that wraps becomes visible; then a second grid with the same counts and width whose faces come in another order; plus all unsupported (source kind, destination) pairs, which must raise. "
+    "padding index that wraps becomes visible; then a second grid with the same counts and width whose faces come in another order; meshes whose element counts straddle an index type's range (n_face <= 255 < n_node; thorough: n_face <= 65535 < n_node); plus all unsupported (source kind, destination) pairs, which must raise. "
     "Oracle: python loop over the model's node lists applying the numpy reduction. Non-trivial = mesh mixes face "
     "sizes or rank >= 2."
 )
@@ -24,6 +24,15 @@ def cases(tier, seed):
     rng = np.random.default_rng([seed, 1717])
     # one large variable (implementations that work block-wise see more than one block)
     yield {"mesh": LARGE, "extra_width": 0, "dseed": 7, "dtype": "float64", "lead": [4, 64], "layout": "C", "big_offset": False, "backend": "numpy", "large": True}
+    # element counts on either side of an index type's range: polygonal (Voronoi) meshes have about twice as many nodes as faces,
+    # so n_face <= 255 < n_node (and, in thorough, n_face <= 65535 < n_node)
+    for j in range(4 if tier == "quick" else 150):
+        yield {"mesh": {"family": "voronoi", "n": int(rng.integers(135, 256)), "seed": int(rng.integers(0, 2**31 - 1)), "ops": [["renumber", int(rng.integers(0, 10**6))]]},
+               "extra_width": 0, "dseed": int(rng.integers(0, 10**6)), "dtype": str(rng.choice(["float64", "int64", "bool"])), "lead": [2][: j % 2], "layout": "C", "big_offset": False,
+               "backend": "numpy", "counts_straddle": 256}
+    if tier == "thorough":
+        yield {"mesh": {"family": "voronoi", "n": 33000, "seed": 3, "ops": []}, "extra_width": 0, "dseed": 11, "dtype": "float64", "lead": [], "layout": "C", "big_offset": False,
+               "backend": "numpy", "counts_straddle": 65536, "large": True}
     n = 90 if tier == "quick" else 12000
     for i in range(n):
         yield {"mesh": gen.random_mesh(rng, 120 if tier == "quick" else 800, families=["voronoi", "merged", "merged", "polyhedron", "delaunay", "cubed_sphere", "sample"]),
@@ -171,6 +180,8 @@ def run_case(ctx, case):
     if mixed or lead:
         ctx.mark_nontrivial()
     ctx.observe("meshes")
+    if case.get("counts_straddle"):
+        ctx.observe("meshes_with_n_face_below_%d_and_n_node_above" % case["counts_straddle"], int(m.n_face < case["counts_straddle"] <= m.n_node))
     if mixed:
         ctx.observe("mixed_size_meshes")
     ctx.observe("dtype_" + case["dtype"])
